@@ -13,4 +13,12 @@ def newBlockTemplate {Q : Type} (ops : QueueOps Q) (e : Env) (pool : List Tx) (f
   let c := candidate ops e pool fuel
   if Spec.blockValid e pool c then Result.ok c else Result.err
 
+/-- Two generator calls in a row: the first template is handed out, the pool changes, the second
+template is generated.  The pair is what the caller holds afterwards. -/
+def generateTwice {Q : Type} (ops : QueueOps Q) (e : Env) (poolA poolB : List Tx) (fuelA fuelB : Nat) :
+    Result × Result :=
+  let a := newBlockTemplate ops e poolA fuelA
+  let b := newBlockTemplate ops e poolB fuelB
+  (a, b)
+
 end BV.C12
